@@ -228,7 +228,8 @@ func typeName(t *parser.Type) string {
 	}
 
 	if t.Annotations != nil {
-		var sb stringBuilder
+		// the caller passes the result to writeString, which escapes '&': do not escape here as well
+		sb := stringBuilder{raw: true}
 		printAnnotation(&sb, t.Annotations)
 		name = name + sb.String()
 	}
@@ -237,10 +238,11 @@ func typeName(t *parser.Type) string {
 
 type stringBuilder struct {
 	buffer strings.Builder
+	raw    bool // true: write the text as it is
 }
 
 func (s *stringBuilder) writeString(str string) {
-	if strings.Contains(str, "&") {
+	if !s.raw && strings.Contains(str, "&") {
 		// 将 & 转义为 &amp;
 		str = strings.ReplaceAll(str, "&", "&amp;")
 	}
